@@ -31,6 +31,12 @@ func lowerFirst(s string) string {
 }
 
 func runC14(p *Prog, r *Report) {
+	if p.KeepCalls == nil {
+		p.KeepCalls = map[string]bool{}
+	}
+	for _, k := range []string{"stats.userCollector.snapshot", "stats.userCollector.snapshotAndReset", "stats.trafficCollector.snapshot", "stats.trafficCollector.snapshotAndReset", "stats.serverCollector.trafficCollector", "stats.serverCollector.userCollector"} {
+		p.KeepCalls[k] = true
+	}
 	r.Explanation = "Structural necessary conditions of 'statistics neither lose nor invent traffic and charge the right user': every counter is paired with its own field in snapshot, reset, aggregation and recording; reset is one atomic exchange per counter; the user map is accessed under its lock with the re-check inside the write-locked section and users are never removed; aggregation covers the anonymous collector and every user; recording sites pass the authenticated user and their own counters; the per-user API answer is projected from that user's entry."
 	r.NotDecided = []string{"numeric conservation under a concrete schedule (follows from the atomic-exchange and lockset facts by the memory model; not measured)", "JSON encoding of the API answers"}
 	r.Assumptions = []string{"sync/atomic Uint64 Add/Swap/Load are single atomic operations", "sync.RWMutex as documented"}
@@ -396,7 +402,7 @@ func c14R4(p *Prog, r *Report) {
 	const rule = "C14-R4"
 	r.Rule(rule, "aggregation covers the anonymous collector and every user: Snapshot/SnapshotAndReset start from the anonymous collector's (resetting) snapshot, and inside a lock-held range over the whole user map add each user's (resetting) snapshot to the totals and append the same value to Users")
 	for _, pair := range [][2]string{{"Snapshot", "snapshot"}, {"SnapshotAndReset", "snapshotAndReset"}} {
-		fc := p.Func("stats", "serverCollector", pair[0])
+		fc := p.Inlined(p.Func("stats", "serverCollector", pair[0]))
 		info := fc.Info()
 		prefix := "stats.(*serverCollector)." + pair[0]
 		recv := fc.RecvObj()
@@ -408,7 +414,8 @@ func c14R4(p *Prog, r *Report) {
 			if !ok || len(as.Rhs) != 1 {
 				continue
 			}
-			if c, ok := ast.Unparen(as.Rhs[0]).(*ast.CallExpr); ok {
+			// the value may reach the totals through a local (a helper's parameter)
+			if c, ok := ast.Unparen(fc.Resolve(as.Rhs[0])).(*ast.CallExpr); ok {
 				fn := Callee(info, c)
 				if fn != nil && fn.Name() == pair[1] && namedTypeName(recvTypeOf(fn)) == "trafficCollector" {
 					if sel, ok := ast.Unparen(c.Fun).(*ast.SelectorExpr); ok && pathKey(info, sel.X) == fmt.Sprintf("%p.tc", recv) {
@@ -449,11 +456,20 @@ func c14R4(p *Prog, r *Report) {
 					continue
 				}
 				if cs.Fn.Name() == pair[1] && namedTypeName(recvTypeOf(cs.Fn)) == "userCollector" {
-					if sel, ok := ast.Unparen(cs.Call.Fun).(*ast.SelectorExpr); ok && objOf(info, sel.X) == ucObj {
+					// uc.snapshot(name) or the method expression (*userCollector).snapshot(uc, name)
+					var recvExpr, nameArg ast.Expr
+					if sel, ok := ast.Unparen(cs.Call.Fun).(*ast.SelectorExpr); ok {
+						if s := info.Selections[sel]; s != nil && s.Kind() == types.MethodExpr && len(cs.Call.Args) == 2 {
+							recvExpr, nameArg = cs.Call.Args[0], cs.Call.Args[1]
+						} else if len(cs.Call.Args) == 1 {
+							recvExpr, nameArg = sel.X, cs.Call.Args[0]
+						}
+					}
+					if recvExpr != nil && objOf(info, recvExpr) == ucObj {
 						snapV = v.ID
 						uObj = cs.ResultVar(0)
 						// name argument is the range key
-						if len(cs.Call.Args) == 1 && objOf(info, cs.Call.Args[0]) != objOf(info, rs.Key) {
+						if objOf(info, nameArg) != objOf(info, rs.Key) {
 							r.Fail(rule, prefix+":user-name-is-map-key", cs.Pos(), "the user's figures are labelled with something other than the map key")
 						}
 					}
